@@ -778,6 +778,62 @@ func ruleUvarintLen(c *Ctx, r *Report, rule string) {
 	}
 	got := strings.Join(rows, " ")
 	r.check(ok && got == "<=240:1 <=248:2 else:b0-246", rule, "uvarintLen", got, "uvarintLen table is ["+got+"]; sqlite4 varint: <=240:1 <=248:2 else:b0-246", c.pos(fd.Pos()))
+	// every buffer sliced up to a length obtained from uvarintLen holds the longest varint (255-246 = 9 bytes)
+	fobj, _ := c.find("uvarintLen")
+	for _, it := range c.sortedDecls() {
+		caller := it.fd
+		if caller.Body == nil {
+			continue
+		}
+		lens := map[types.Object]bool{}
+		ast.Inspect(caller.Body, func(n ast.Node) bool {
+			as, ok := n.(*ast.AssignStmt)
+			if !ok || len(as.Lhs) != 1 || len(as.Rhs) != 1 {
+				return true
+			}
+			if call, ok := c.stripConv(as.Rhs[0]).(*ast.CallExpr); ok && c.callee(call) == fobj {
+				if id, ok := as.Lhs[0].(*ast.Ident); ok {
+					lens[c.objOf(id)] = true
+				}
+			}
+			return true
+		})
+		if len(lens) == 0 {
+			continue
+		}
+		ast.Inspect(caller.Body, func(n ast.Node) bool {
+			se, ok := n.(*ast.SliceExpr)
+			if !ok || se.High == nil {
+				return true
+			}
+			hid, ok := stripParens(se.High).(*ast.Ident)
+			if !ok || !lens[c.objOf(hid)] {
+				return true
+			}
+			size := int64(-1)
+			switch t := c.typeOf(se.X).Underlying().(type) {
+			case *types.Array:
+				size = t.Len()
+			case *types.Pointer:
+				if a, ok := t.Elem().Underlying().(*types.Array); ok {
+					size = a.Len()
+				}
+			case *types.Slice:
+				if id, ok := stripParens(se.X).(*ast.Ident); ok {
+					if def, n := c.singleDef(caller.Body, c.objOf(id)); n == 1 {
+						if mk, ok := def.(*ast.CallExpr); ok && c.calleeName(mk) == "make" && len(mk.Args) >= 2 {
+							if k, isC := c.intConst(mk.Args[1]); isC {
+								size = k
+							}
+						}
+					}
+				}
+			}
+			name := qname(it.obj)
+			r.check(size >= 9, rule, name+"/"+types.ExprString(se), fmt.Sprintf("buffer of %d bytes", size), fmt.Sprintf("%s is sliced up to a length given by uvarintLen (at most 9) but holds %d bytes: a 9-byte varint (first byte 255) does not fit", types.ExprString(se.X), size), c.pos(se.Pos()))
+			return true
+		})
+	}
 }
 
 // ---------------------------------------------------------------- read discipline
@@ -1196,4 +1252,266 @@ func (c *Ctx) sizeForm(e ast.Expr) (int64, bool) {
 		}
 	}
 	return -1 << 40, false
+}
+
+// ---------------------------------------------------------------- Load rejects only damage
+
+// ruleRejectsOnlyDamage: Load and the helpers it calls construct an error
+// only where a read failed or came up short, or where the fixed header
+// bytes differ from the format's constants. A rejection on any other
+// condition (a size limit, a value range) refuses dumps that Dump writes.
+func ruleRejectsOnlyDamage(c *Ctx, r *Report, rule string) {
+	r.rule(rule, 15, "every error Load (and the decoding helpers it calls) constructs is justified by a failed or short read (a condition on a read's error or byte count), by header bytes differing from the format constants, or by an unknown type code; sizes and values decoded from the dump are never a reason to reject it (Dump writes code, names, strings, positions of any magnitude)")
+	obj, fd := c.find("Prog.Load")
+	if fd == nil {
+		r.bad(rule, "Prog.Load", "function not found", "")
+		return
+	}
+	// Load and the module functions it reaches by static calls
+	type item struct {
+		obj types.Object
+		fd  *ast.FuncDecl
+	}
+	var work []item
+	seen := map[*ast.FuncDecl]bool{}
+	var visit func(o types.Object, d *ast.FuncDecl)
+	visit = func(o types.Object, d *ast.FuncDecl) {
+		if d == nil || d.Body == nil || seen[d] {
+			return
+		}
+		seen[d] = true
+		work = append(work, item{o, d})
+		walkCalls(d.Body, false, func(call *ast.CallExpr) {
+			if fn, ok := c.callee(call).(*types.Func); ok && fn.Pkg() != nil && fn.Pkg().Path() == bclPath {
+				visit(fn, c.funcDecls[fn])
+			}
+		})
+	}
+	visit(obj, fd)
+	errType := types.Universe.Lookup("error").Type()
+	isErr := func(e ast.Expr) bool {
+		t := c.typeOf(e)
+		return t != nil && types.Identical(t, errType)
+	}
+	for _, it := range work {
+		d := it.fd
+		name := qname(it.obj)
+		// locals that hold what a read returned: byte counts and buffers
+		counts := map[types.Object]bool{}
+		bufs := map[types.Object]bool{}
+		ast.Inspect(d.Body, func(n ast.Node) bool {
+			switch n := n.(type) {
+			case *ast.AssignStmt:
+				if len(n.Rhs) == 1 {
+					if call, ok := n.Rhs[0].(*ast.CallExpr); ok && isReadCall(c.calleeName(call)) && len(n.Lhs) == 2 {
+						if id, ok := n.Lhs[0].(*ast.Ident); ok && id.Name != "_" {
+							counts[c.objOf(id)] = true
+						}
+					}
+				}
+			case *ast.CallExpr:
+				if isReadCall(c.calleeName(n)) && len(n.Args) > 0 {
+					ast.Inspect(n.Args[len(n.Args)-1], func(x ast.Node) bool {
+						if id, ok := x.(*ast.Ident); ok {
+							if v, ok := c.objOf(id).(*types.Var); ok && !v.IsField() {
+								bufs[v] = true
+							}
+						}
+						return true
+					})
+				}
+			}
+			return true
+		})
+		mentions := func(e ast.Expr, set map[types.Object]bool) bool {
+			found := false
+			ast.Inspect(e, func(x ast.Node) bool {
+				if id, ok := x.(*ast.Ident); ok && set[c.objOf(id)] {
+					found = true
+				}
+				return !found
+			})
+			return found
+		}
+		mentionsErr := func(e ast.Expr) bool {
+			found := false
+			ast.Inspect(e, func(x ast.Node) bool {
+				if ex, ok := x.(ast.Expr); ok && isErr(ex) {
+					if _, isNil := ex.(*ast.Ident); !isNil || ex.(*ast.Ident).Name != "nil" {
+						found = true
+					}
+				}
+				return !found
+			})
+			return found
+		}
+		justifies := func(a condAtom) string {
+			e := a.E
+			if a.Init != nil {
+				// `if _, err := read(); err != nil`
+				for _, rhs := range a.Init.Rhs {
+					if call, ok := rhs.(*ast.CallExpr); ok && len(a.Init.Lhs) > 0 {
+						_ = call
+					}
+				}
+			}
+			switch {
+			case mentionsErr(e):
+				return "read error"
+			case mentions(e, counts):
+				return "byte count of a read"
+			case mentions(e, bufs) && c.mentionsPkgConst(e):
+				return "header bytes against a format constant"
+			}
+			return ""
+		}
+		pm := parentMap(d.Body)
+		idx := 0
+		ast.Inspect(d.Body, func(n ast.Node) bool {
+			rs, ok := n.(*ast.ReturnStmt)
+			if !ok {
+				return true
+			}
+			var errRes ast.Expr
+			for _, res := range rs.Results {
+				if isErr(res) || (len(rs.Results) > 0 && res == rs.Results[len(rs.Results)-1] && c.typeOf(res) != nil && types.Implements(c.typeOf(res), errType.Underlying().(*types.Interface))) {
+					errRes = res
+				}
+			}
+			if errRes == nil || isNilIdent(errRes) {
+				return true
+			}
+			idx++
+			key := fmt.Sprintf("%s/error-return#%d", name, idx)
+			if id, ok := stripParens(errRes).(*ast.Ident); ok {
+				if _, isVar := c.objOf(id).(*types.Var); isVar {
+					r.ok(rule, key, "passes on the error variable "+id.Name+" (nil unless a read failed)")
+					return true
+				}
+			}
+			// unknown type code: the default arm of a switch over a byte that was read
+			for p := pm[ast.Node(rs)]; p != nil; p = pm[p] {
+				if cc, ok := p.(*ast.CaseClause); ok && cc.List == nil {
+					if blk, ok := pm[cc].(*ast.BlockStmt); ok {
+						if sw, ok := pm[blk].(*ast.SwitchStmt); ok && sw.Tag != nil {
+							r.ok(rule, key, "default arm of the switch over the type code")
+							return true
+						}
+					}
+				}
+				if _, isLit := p.(*ast.FuncLit); isLit {
+					break
+				}
+			}
+			why := ""
+			var unjust []string
+			for _, nf := range factNFs(c.factsAt(d.Body, rs)) {
+				// the fact is a reason when every alternative of it is one
+				alts := nf.dnf()
+				all := len(alts) > 0
+				w := ""
+				for _, alt := range alts {
+					one := ""
+					for _, a := range alt {
+						if j := justifies(a); j != "" {
+							one = j
+						}
+					}
+					if one == "" {
+						all = false
+					} else {
+						w = one
+					}
+				}
+				if all {
+					why = w
+				} else {
+					for _, a := range nf.knownAtoms() {
+						if justifies(a) == "" {
+							unjust = append(unjust, polarity(a))
+						}
+					}
+					if len(nf.knownAtoms()) == 0 {
+						unjust = append(unjust, "(a disjunction with an alternative that is no read failure)")
+					}
+				}
+			}
+			// the innermost condition must itself be a reason: `if err != nil { if m > K { return error } }` still rejects on m
+			inner := c.innermostFact(d.Body, pm, rs)
+			innerOK := true
+			if inner != nil {
+				innerOK = false
+				alts := inner.dnf()
+				ok := len(alts) > 0
+				for _, alt := range alts {
+					one := false
+					for _, a := range alt {
+						if justifies(a) != "" {
+							one = true
+						}
+					}
+					if !one {
+						ok = false
+					}
+				}
+				innerOK = ok
+			}
+			if why != "" && innerOK {
+				r.ok(rule, key, "constructed under: "+why)
+			} else {
+				r.bad(rule, key, fmt.Sprintf("%s returns the error %s on a condition that is no read failure, short read or header mismatch (%s): a dump that Dump writes can be refused", name, types.ExprString(errRes), strings.Join(unjust, "; ")), c.pos(rs.Pos()))
+			}
+			return true
+		})
+	}
+}
+
+func polarity(a condAtom) string {
+	if a.Pos {
+		return types.ExprString(a.E)
+	}
+	return "!(" + types.ExprString(a.E) + ")"
+}
+
+func isReadCall(name string) bool {
+	switch name {
+	case "io.ReadFull", "io.ReadAtLeast", "(*bufio.Reader).Read", "bufio.Reader.Read", "io.Reader.Read":
+		return true
+	}
+	return false
+}
+
+// mentionsPkgConst: the expression refers to a package-level constant of the module.
+func (c *Ctx) mentionsPkgConst(e ast.Expr) bool {
+	found := false
+	ast.Inspect(e, func(x ast.Node) bool {
+		if id, ok := x.(*ast.Ident); ok {
+			if k, ok := c.objOf(id).(*types.Const); ok && k.Pkg() != nil && k.Pkg().Path() == bclPath {
+				found = true
+			}
+		}
+		return !found
+	})
+	return found
+}
+
+// innermostFact: the condition of the nearest enclosing if (in the polarity
+// of the branch taken), or the negation of the nearest preceding leaving
+// guard when the statement is not nested in an if.
+func (c *Ctx) innermostFact(root ast.Node, pm map[ast.Node]ast.Node, at ast.Node) *condNF {
+	for cur := at; cur != nil && cur != root; cur = pm[cur] {
+		if ifs, ok := pm[cur].(*ast.IfStmt); ok {
+			init, _ := ifs.Init.(*ast.AssignStmt)
+			if cur == ast.Node(ifs.Body) {
+				return c.nnf(ifs.Cond, true, init)
+			}
+			if ifs.Else != nil && cur == ifs.Else {
+				return c.nnf(ifs.Cond, false, init)
+			}
+		}
+		if _, ok := pm[cur].(*ast.FuncLit); ok {
+			return nil
+		}
+	}
+	return nil
 }
